@@ -37,7 +37,11 @@ TextCase(i, text) ==
    errkind |-> IF m[1] = "err" THEN m[2] ELSE "", offset |-> IF m[1] = "err" THEN m[3] ELSE -1,
    allowed |-> IF m[1] = "ok" THEN [d \in 1..Len(SearchDocs) |-> Outcomes(m[2], SearchDocs[d])] ELSE <<>>]
 
-IdentTexts(c) == << <<97, c>>, <<c, 97>>, <<97, c, 98>>, <<95, c, 49>>, <<97, 49, c>>, <<97, c, c>>, <<34, 97, c, 34>>, <<39, c, 39>>, <<96, 34, c, 34, 96>> >>
+IdentTexts(c) == << <<97, c>>, <<c, 97>>, <<97, c, 98>>, <<95, c, 49>>, <<97, 49, c>>, <<97, c, c>>, <<34, 97, c, 34>>, <<39, c, 39>>, <<96, 34, c, 34, 96>>,
+                    <<91, 34, c, c, 34>>, <<123, 34, c, c, 34>>, <<34, c, c, 34, 46>>, <<97, 46, 34, c, c, 34, 91>> >>
+(* identifier contexts are exercised with every fine character AND every code point of Latin-1 Supplement / Latin Extended-A
+   and a few from other blocks (members of the "letter beyond ASCII" class other than its representative) *)
+IdentChars == FineQ \o [i \in 1..224 |-> 159 + i] \o <<7216, 7217, 12354, 40960, 66560, 199728, 917760>>
 
 ValidUtf8(x) == \A i \in 1..Len(x) : x[i] >= 0
 (* the C14 spellings of s, each with the value the property assigns (stated from s, not through the lexer model) *)
@@ -63,8 +67,8 @@ Out ==
   IF Mode \in {"coarse", "fine"}
   THEN LET mine == Mine(NStrings) IN <<hdr>> \o [m \in 1..Len(mine) |-> TextCase(mine[m], StringAt(mine[m]))]
   ELSE IF Mode = "ident"
-  THEN LET mine == Mine(Len(FineQ)) IN
-       <<hdr>> \o FlatCat([m \in 1..Len(mine) |-> LET ts == IdentTexts(FineQ[mine[m] + 1]) IN [j \in 1..Len(ts) |-> TextCase(mine[m] * 16 + j, ts[j])]], 1)
+  THEN LET mine == Mine(Len(IdentChars)) IN
+       <<hdr>> \o FlatCat([m \in 1..Len(mine) |-> LET ts == IdentTexts(IdentChars[mine[m] + 1]) IN [j \in 1..Len(ts) |-> TextCase(mine[m] * 16 + j, ts[j])]], 1)
   ELSE LET mine == Mine(NStrings) IN
        <<hdr>> \o FlatCat([m \in 1..Len(mine) |-> LET s == StringAt(mine[m]) IN IF ValidUtf8(s) THEN C14Cases(mine[m], s) ELSE <<>>], 1)
 
